@@ -112,6 +112,86 @@ harness! {
     }
 }
 
+// ---- State::{write, take, close}: back-pressure and wake-ups of the single-slot protocol ----------
+// capacity 2 messages of 1 byte, read size 1; the buffer is brought to a symbolic fill level first.
+fn state_with(fill: usize) -> State {
+    let mut st = State::new(2, 1, 1);
+    let mut k = 0;
+    while k < 2 {
+        if k < fill {
+            st.buf.next().write(&[7u8][..]);
+        }
+        k += 1;
+    }
+    st
+}
+
+harness! {
+    #[kani::unwind(6)]
+    fn q14_state_write_step() {
+        use crate::ff::Fp31;
+        let fill: usize = kani::any();
+        kani::assume(fill <= 2);
+        let mut st = state_with(fill);
+        let stream_parked: bool = kani::any();
+        if stream_parked {
+            st.stream_ready = Some(waker(1));
+        }
+        let w = waker(2);
+        let cx = Context::from_waker(&w);
+        let m: Fp31 = crate::verif_kani::c08_prime::mk31(5);
+        match st.write(&m, &cx) {
+            Poll::Pending => {
+                assert!(fill == 2, "a writer blocks only when the buffer is full");
+                assert!(st.buf.len() == 2, "a blocked write stores nothing");
+                State::wake(&mut st.write_ready);
+                assert!(woken(2) == 1, "the blocked writer's own waker is parked");
+            }
+            Poll::Ready(()) => {
+                assert!(fill < 2 && st.buf.len() == fill + 1);
+                assert!(woken(1) == usize::from(stream_parked), "a parked reader is woken as soon as data can be read");
+                assert!(st.stream_ready.is_none());
+            }
+        }
+        kani::cover!(fill == 2);
+        kani::cover!(fill == 0 && stream_parked);
+        std::mem::forget(st);
+    }
+}
+
+harness! {
+    #[kani::unwind(6)]
+    fn q14_state_take_and_close_step() {
+        let fill: usize = kani::any();
+        kani::assume(fill <= 2);
+        let mut st = state_with(fill);
+        let writer_parked: bool = kani::any();
+        if writer_parked {
+            st.write_ready = Some(waker(0));
+        }
+        let w = waker(3);
+        let cx = Context::from_waker(&w);
+        match st.take(&cx) {
+            Poll::Ready(v) => {
+                assert!(fill >= 1 && v.len() == 1 && st.buf.len() == fill - 1, "one read block is taken");
+                // a writer can only be parked while the buffer was full; freeing space must wake it
+                assert!(woken(0) == usize::from(writer_parked && fill == 2), "a writer blocked on a full buffer is woken when space is freed");
+                std::mem::forget(v);
+            }
+            Poll::Pending => {
+                assert!(fill == 0, "the reader parks only when nothing can be read");
+                assert!(woken(0) == 0);
+                // closing wakes the parked reader so that it can observe the end of the stream
+                st.close();
+                assert!(woken(3) == 1 && st.is_closed(), "close wakes the parked reader");
+            }
+        }
+        kani::cover!(fill == 2 && writer_parked);
+        kani::cover!(fill == 0);
+        std::mem::forget(st);
+    }
+}
+
 // native replay slot (cargo kani playback): the driver points IPA_VERIF_REPLAY_DIR at a directory
 // holding one file per hook; the generated test calls the harness by its path relative to this module.
 #[cfg(test)]
